@@ -24,7 +24,7 @@ def _hexfile(wd):
 def _gen_worker(args):
     import logging
     logging.disable(logging.CRITICAL)
-    (seed, ver, fl, steps, profile, calls, persist_dir, raising, hexfile, ext) = args
+    (seed, ver, fl, steps, profile, calls, persist_dir, raising, hexfile, ext, opts) = args
     rng = random.Random(seed)
     pfile = None
     if persist_dir:
@@ -34,7 +34,7 @@ def _gen_worker(args):
             if os.path.exists(pfile + suffix):
                 os.remove(pfile + suffix)
     tr = gwgen.run_history(rng, ver, fl, steps, profile=profile, calls=calls, persist=pfile,
-                           raising_cb=raising, hexfile=hexfile)
+                           raising_cb=raising, hexfile=hexfile, **opts)
     tr["cfg"]["seed"] = seed
     tr["cfg"]["ext"] = ext
     if pfile:
@@ -98,7 +98,8 @@ class GwCheck:
     def __init__(self, pid, tier, proj, *, focus=(), versions=ALL_VERS, flavours=FLAVOURS, profile=None,
                  calls=True, persist=False, raising_share=0.3, steps=40, n_quick=50, n_thorough=1200,
                  sim_quick=60, sim_thorough=1500, nontrivial=None, sig_extra=None, exts=("json",),
-                 mc_depth_quick=6, mc_depth_thorough=8, sim_depth=14, mc_props=None, mc_invs=None):
+                 mc_depth_quick=6, mc_depth_thorough=8, sim_depth=14, mc_props=None, mc_invs=None, gen_opts=None):
+        self.gen_opts = gen_opts or (lambda i: {"prefix": "mix"})
         self.pid, self.tier, self.proj = pid, tier, proj
         self.focus, self.versions, self.flavours = focus, versions, flavours
         self.profile, self.calls, self.persist = profile, calls, persist
@@ -143,7 +144,8 @@ class GwCheck:
                     k += 1
                     raising = (i % 10) < self.raising_share * 10
                     ext = self.exts[i % len(self.exts)]
-                    jobs.append((seed0 + k, ver, fl, self.steps, self.profile, self.calls, pdir, raising, hexfile, ext))
+                    jobs.append((seed0 + k, ver, fl, self.steps, self.profile, self.calls, pdir, raising, hexfile, ext,
+                                 self.gen_opts(i)))
         rjobs = []
         simstats = []
         for (name, fn, vers, fls, persist) in self.focus:
